@@ -19,7 +19,7 @@ _mod = _repo.module('pywbem._mof_compiler')
 QUALS = ListOf(('ref', 'CIMQualifier'))
 PARAMS = ListOf(('ref', 'CIMParameter'))
 VALUE = Opt(Str)            # the value of a defaultValue symbol as far as these actions care: NULL or something
-TOKEN = Str                 # a literal or keyword token: p[i] is its text
+TOKEN = Str                 # a keyword token: p[i] is the text that was matched (any letter case)
 
 SYM = {'dataType': Str, 'objectRef': Str, 'referenceName': Str, 'methodName': Str, 'qualifierName': Str,
        'defaultValue': VALUE, 'qualifierList': QUALS, 'parameterList': PARAMS, 'array': Opt(Int)}
@@ -39,7 +39,9 @@ def _alternatives(fname):
 def _sort(sym):
     if sym in SYM:
         return SYM[sym]
-    if sym.startswith("'") or sym.isupper():
+    if sym.startswith("'"):
+        return Lit(sym[1:-1])       # a literal token: p[i] is exactly that character
+    if sym.isupper() or sym.startswith('DT_'):
         return TOKEN
     raise KeyError(sym)
 
@@ -50,6 +52,14 @@ def _prod(syms, **fields):
 
 def _pos(syms):
     return {s: i + 1 for i, s in enumerate(syms)}
+
+
+def _quals_req(pos, arg='qualifiers', sym='qualifierList'):
+    """The dictionary argument is built from the list symbol if the rule has one, and is empty (or absent) if not.
+    (The content of a dictionary built from a list of symbolic length is not modelled by the engine.)"""
+    if sym in pos:
+        return (f'{sym}-symbol-means-{arg}-are-handed-over', f'{arg} is not None')
+    return (f'no-{sym}-symbol-means-no-{arg}', f'{arg} is None or len({arg}) == 0')
 
 
 # ---- 1. referenceDeclaration: objectRef -> reference_class, referenceName -> name, type 'reference',
@@ -67,8 +77,7 @@ def _reference_declaration_contracts():
             req.append(('defaultValue-symbol-is-the-value', f"value is caller_p[{pos['defaultValue']}]"))
         else:
             req.append(('no-defaultValue-symbol-means-NULL', 'value is None'))
-        if 'qualifierList' in pos:
-            req.append(('qualifierList-symbol-means-qualifiers-are-handed-over', 'qualifiers is not None'))
+        req.append(_quals_req(pos))
         init_c = Contract(O + 'CIMProperty.__init__', trusted=True, raises=ERR, requires=req)
         out.append(Contract(
             M + 'p_referenceDeclaration', label=' '.join(syms),
@@ -82,3 +91,82 @@ def _reference_declaration_contracts():
 
 
 CONTRACTS.extend(_reference_declaration_contracts())
+
+
+# ---- 2. methodDeclaration: methodName -> name, dataType -> return_type, parameterList -> parameters (none when the
+#         rule has no parameterList symbol), qualifierList -> qualifiers (none when absent)
+def _method_declaration_contracts():
+    head, alts = _alternatives('p_methodDeclaration')
+    out = []
+    for syms in alts:
+        pos = _pos(syms)
+        req = [('name-is-the-methodName-symbol', f"name == caller_p[{pos['methodName']}]"),
+               ('return-type-is-the-dataType-symbol', f"return_type == caller_p[{pos['dataType']}]"),
+               _quals_req(pos, 'parameters', 'parameterList'),
+               _quals_req(pos),
+               ('parsed-MOF-is-not-propagated-and-has-no-origin-yet', 'propagated is None and class_origin is None')]
+        init_c = Contract(O + 'CIMMethod.__init__', trusted=True, raises=ERR, requires=req)
+        out.append(Contract(
+            M + 'p_methodDeclaration', label=' '.join(syms),
+            params={'p': _prod(syms)},
+            callees={'CIMMethod.__init__': init_c},
+            opaque=['CIMMethod'],
+            ensures=[('production-value-is-the-method', 'isinstance(p[0], CIMMethod)')],
+            raises=ERR,
+            notes=f'rule: {head} : {" ".join(syms)}'))
+    return out
+
+
+CONTRACTS.extend(_method_declaration_contracts())
+
+
+# ---- 3. qualifierDeclaration and its helpers
+# qualifierType_1/_2: the production value is (type, is_array, array_size, default value): the dataType symbol,
+# whether the rule has an array symbol (and its size), the defaultValue symbol or NULL
+def _qualifier_type_contracts():
+    out = []
+    for fname in ('p_qualifierType_1', 'p_qualifierType_2'):
+        head, alts = _alternatives(fname)
+        for syms in alts:
+            pos = _pos(syms)
+            ens = [('a-4-tuple', 'isinstance(p[0], tuple) and len(p[0]) == 4'),
+                   ('type-is-the-dataType-symbol', f"p[0][0] == p[{pos['dataType']}]")]
+            if 'array' in pos:
+                ens.append(('array-symbol-means-an-array-of-that-size',
+                            f"p[0][1] is True and (p[0][2] is p[{pos['array']}] or p[0][2] == p[{pos['array']}])"))
+            else:
+                ens.append(('no-array-symbol-means-a-scalar', 'p[0][1] is False and p[0][2] is None'))
+            if 'defaultValue' in pos:
+                ens.append(('defaultValue-symbol-is-the-value', f"p[0][3] is p[{pos['defaultValue']}]"))
+            else:
+                ens.append(('no-defaultValue-symbol-means-NULL', 'p[0][3] is None'))
+            out.append(Contract(M + fname, label=' '.join(syms), params={'p': _prod(syms)}, ensures=ens, raises={},
+                                notes=f'rule: {head} : {" ".join(syms)}'))
+    return out
+
+
+CONTRACTS.extend(_qualifier_type_contracts())
+
+# scope: one entry per DSP0004 scope keyword, true exactly for the keywords of the scopeElementList symbol
+SCOPE_KEYWORDS = ('CLASS', 'ASSOCIATION', 'INDICATION', 'PROPERTY', 'REFERENCE', 'METHOD', 'PARAMETER', 'ANY')
+SYM['scopeElementList'] = ListOf('str')
+SYM['flavorListWithComma'] = ListOf('str')
+SYM['flavorList'] = ListOf('str')
+
+
+def _scope_contracts():
+    head, alts = _alternatives('p_scope')
+    out = []
+    for syms in alts:
+        pos = _pos(syms)
+        lst = f"p[{pos['scopeElementList']}]"
+        out.append(Contract(
+            M + 'p_scope', label=' '.join(syms), params={'p': _prod(syms)},
+            loops={1: LoopSpec(unroll=True)},
+            ensures=[('one-entry-per-scope-keyword', f'len(p[0]) == {len(SCOPE_KEYWORDS)}')] +
+                    [(f'{k}-is-in-scope-iff-listed', f"p[0][{k!r}] == ({k!r} in {lst})") for k in SCOPE_KEYWORDS],
+            raises={}, notes=f'rule: {head} : {" ".join(syms)}'))
+    return out
+
+
+CONTRACTS.extend(_scope_contracts())
